@@ -53,15 +53,14 @@ def handle (w cap digs : Nat) (op : String) (args : List String) (got : String) 
       (match modBarrtFull w a m with
       | none => mk "err" "err" [if m = 0 then "barrt:err-zero" else "barrt:err-neg"]
       | some (r, path) =>
-        -- specification: the residue in [0, m); for a < 0 the code keeps a negative a with |a| < m and returns m for m | a (findings
-        -- C09-ext-mod-1): those lines are only emitted with a `neg` marker by the generator and the spec column states the residue
+        -- specification: the residue in [0, m) for every integer a (negative operands canonical since fix 060ee71)
         let spec := fmt (a % m)
         let tags := match path with
           | .early => ["barrt:early-exit" ++ (if a < 0 then "-neg" else "")]
           | .long => ["barrt:long-a-fallback" ++ (if a < 0 then "-neg" else "")]
           | .main wrap n => ["barrt:main" ++ (if a < 0 then "-neg" else ""), if wrap then "barrt:wrap" else "barrt:nowrap",
                              "barrt:corrections=" ++ toString n] ++
-                            (if a < 0 ∧ a % m = 0 then ["barrt:neg-multiple-returns-m"] else [])
+                            (if a < 0 ∧ a % m = 0 then ["barrt:neg-multiple"] else [])
         mk (fmt r) spec ("barrt:model" :: tags))
     | "pre_monty" =>
       (match preMonty w m with
@@ -97,7 +96,7 @@ def handle (w cap digs : Nat) (op : String) (args : List String) (got : String) 
         mk (fmt r) (fmt (a % m)) (["pmers:model" ++ (if a < 0 then "-neg" else ""),
           "pmers:rounds=" ++ (if rounds > 3 then ">3" else toString rounds), "pmers:subs=" ++ (if n > 3 then ">3" else toString n),
           if used w ((2 : Int) ^ bitLen m.toNat - m).toNat = 1 then "pmers:u-one-digit" else "pmers:u-multi-digit"] ++
-          (if a < 0 ∧ a % m = 0 then ["pmers:neg-multiple-returns-m"] else [])))
+          (if a < 0 ∧ a % m = 0 then ["pmers:neg-multiple"] else [])))
     | _ => none
   | _, _ => none
 
